@@ -180,7 +180,8 @@ package run
 //@   modifies allbut(GRstage, GRsetups, GRteardowns, GRruns, GRsetupFailed, GRsummaries)
 //@
 //@ func (*Run).run
-//@   props C05 C06
+//@   props C05 C06 C09
+//@   dyncall triggerCancel : any
 //@   requires wfRun(r) && r.options.Concurrency >= 1
 //@   dyncall Trigger : trigFn
 //@   assert before call context.WithTimeout : [deadline] arg1 == ((r.trigger.Duration > 0 && r.trigger.Duration < r.options.MaxDuration) ? r.trigger.Duration : r.options.MaxDuration) - 10000000
@@ -253,11 +254,19 @@ package run
 //@   modifies nothing
 //@   ensures result != nil && fresh(result) && result.output == output
 //@
+//@ func (*ScenarioLogger).openLogFile
+//@   props C14 C08 C06 C07
+//@   trusted file I/O plumbing (os.OpenFile): a file or an error
+//@   modifies nothing
+//@   ensures (result.1 == nil ==> result.0 != nil) && (result.1 != nil ==> result.0 == nil)
+//@
+//@ // C07: every iteration handle gets a logger: whatever happens to the log file, Open leaves a logger in place (a nil
+//@ // logger would turn the first logged failure into a panic inside the panic handler)
 //@ func (*ScenarioLogger).Open
-//@   props C14 C08 C06
-//@   trusted opens the log file (or falls back to the default logger); touches only the logger's own fields
-//@   requires s != nil
+//@   props C14 C08 C06 C07
+//@   requires s != nil && s.output != nil
 //@   modifies s.Logger, s.logFile
+//@   ensures [a-logger-on-every-path] s.output.Logger != nil ==> s.Logger != nil
 //@
 //@ func NewResult
 //@   props C14 C08 C06
